@@ -117,9 +117,25 @@ func generateInto(run *runB, v variant, dir string, emb embedding, seed int64, n
 			hot = append(hot, append(append([]int{}, stem...), alphabetB[rng.Intn(3)]))
 		}
 	}
+	// generator memory (inputs only, never an oracle): keys recently written / deleted, last
+	// key each iterator returned - used to aim seeks and bounds at interesting places
+	var recentSet, recentDel [][]int
+	remember := func(l *[][]int, k []int) {
+		*l = append(*l, k)
+		if len(*l) > 6 {
+			*l = (*l)[1:]
+		}
+	}
+	lastPos := map[int][]int{}
 	pickKey := func() []int {
-		if rng.Intn(10) < 8 {
+		x := rng.Intn(10)
+		switch {
+		case x < 6:
 			return hot[rng.Intn(len(hot))]
+		case x < 8 && len(recentSet) > 0:
+			return recentSet[rng.Intn(len(recentSet))]
+		case x < 9 && len(recentDel) > 0:
+			return recentDel[rng.Intn(len(recentDel))]
 		}
 		return randKeyB(rng, 3)
 	}
@@ -136,182 +152,281 @@ func generateInto(run *runB, v variant, dir string, emb embedding, seed int64, n
 		return k
 	}
 	positives := 0
-	type itInfo struct {
-		rd int
-	}
-	itOf := map[int]itInfo{}
+	itRd := map[int]int{}
 	const maxR, maxI = 3, 3
 
-	for step := 0; step < n; step++ {
+	freeReader := func() int {
+		for c := 1; c <= maxR; c++ {
+			if _, ok := r.readers[c]; !ok {
+				return c
+			}
+		}
+		return 0
+	}
+	freeIter := func() int {
+		for c := 1; c <= maxI; c++ {
+			if _, ok := r.iters[c]; !ok {
+				return c
+			}
+		}
+		return 0
+	}
+	observe := func(id int) map[string]any {
+		got, problem := r.current(r.iters[id])
+		if problem != "" && got.K == nil {
+			panic(genFail{"iter-accessors-inconsistent", problem})
+		}
+		if got.Valid {
+			lastPos[id] = got.K
+		}
+		return retJSON(got)
+	}
+	doBatch := func(ops []Op) {
+		var evOps []any
+		for _, o := range ops {
+			evOps = append(evOps, map[string]any{"op": o.Op, "k": nn(o.K), "v": nn(o.V), "d": o.D})
+			switch o.Op {
+			case "set":
+				remember(&recentSet, o.K)
+			case "del":
+				remember(&recentDel, o.K)
+			}
+		}
+		if err := r.execBatch(ops); err != nil {
+			panic(genFail{"batch-error", err.Error()})
+		}
+		emit(map[string]any{"name": "ExecuteBatch", "ops": evOps})
+	}
+	doReaderOpen := func() int {
+		id := freeReader()
+		if id == 0 {
+			return 0
+		}
+		rd, err := r.st.Reader()
+		if err != nil {
+			panic(genFail{"reader-error", err.Error()})
+		}
+		r.readers[id] = rd
+		emit(map[string]any{"name": "ReaderOpen", "r": id})
+		return id
+	}
+	doIterClose := func(id int) {
+		_ = r.iters[id].Close()
+		delete(r.iters, id)
+		delete(itRd, id)
+		delete(lastPos, id)
+		emit(map[string]any{"name": "IterClose", "i": id})
+	}
+	doReaderClose := func(id int) {
+		for i := 1; i <= maxI; i++ {
+			if rd, ok := itRd[i]; ok && rd == id {
+				doIterClose(i)
+			}
+		}
+		_ = r.readers[id].Close()
+		delete(r.readers, id)
+		emit(map[string]any{"name": "ReaderClose", "r": id})
+	}
+	doIterOpen := func(rid int, kind string, lo, hi []int) int {
+		id := freeIter()
+		if id == 0 || rid == 0 {
+			return 0
+		}
+		var it store.KVIterator
+		if kind == "prefix" {
+			it = r.readers[rid].PrefixIterator(emb.bound(lo))
+			hi = none
+		} else {
+			var end []byte
+			if !isNone(hi) {
+				end = emb.key(hi)
+			}
+			it = r.readers[rid].RangeIterator(emb.bound(lo), end)
+		}
+		if it == nil {
+			panic(genFail{"iter-open-nil", ""})
+		}
+		r.iters[id] = it
+		itRd[id] = rid
+		emit(map[string]any{"name": "IterOpen", "i": id, "r": rid, "kind": kind, "lo": nn(lo), "hi": hi, "ret": observe(id)})
+		return id
+	}
+	doSeek := func(id int, k []int) {
+		r.iters[id].Seek(emb.key(k))
+		emit(map[string]any{"name": "Seek", "i": id, "k": nn(k), "ret": observe(id)})
+	}
+	doNext := func(id int) {
+		if !r.iters[id].Valid() {
+			return
+		}
+		r.iters[id].Next()
+		emit(map[string]any{"name": "Next", "i": id, "ret": observe(id)})
+	}
+	randomBatch := func() []Op {
+		nops := 1 + rng.Intn(6)
+		used := map[string]string{}
+		var ops []Op
+		for tries := 0; len(ops) < nops && tries < 30; tries++ {
+			k := pickKey()
+			ks := fmt.Sprint(k)
+			y := rng.Intn(100)
+			var o Op
+			switch {
+			case y < 42:
+				val := []int{rng.Intn(8)}
+				if rng.Intn(10) < 3 {
+					val = []int{}
+				}
+				o = Op{Op: "set", K: k, V: val}
+			case y < 72:
+				if len(recentSet) > 0 && rng.Intn(3) > 0 {
+					k = recentSet[rng.Intn(len(recentSet))]
+					ks = fmt.Sprint(k)
+				}
+				o = Op{Op: "del", K: k, V: none}
+			default:
+				d := []int{-3, -1, 1, 2}[rng.Intn(4)]
+				if d > 0 {
+					if positives >= 50 { // keeps every count a one-byte uvarint (< 128)
+						d = -1
+					} else {
+						positives++
+					}
+				}
+				o = Op{Op: "merge", K: k, V: none, D: d}
+			}
+			kind := "w"
+			if o.Op == "merge" {
+				kind = "m"
+			}
+			if prev, ok := used[ks]; ok && (prev != kind || kind == "w") {
+				// a key is merged or set/deleted in one batch, never both; set/delete at most once
+				continue
+			}
+			used[ks] = kind
+			ops = append(ops, o)
+		}
+		return ops
+	}
+	// after a batch with deletions: look at the deleted keys through a new reader with an
+	// iterator that starts before them, moves past them and seeks back (and to the key itself)
+	probeDeleted := func(ops []Op) {
+		var dels [][]int
+		for _, o := range ops {
+			if o.Op == "del" {
+				dels = append(dels, o.K)
+			}
+		}
+		if len(dels) == 0 {
+			return
+		}
+		rid := freeReader()
+		if rid == 0 {
+			rid = 1 + rng.Intn(maxR)
+			doReaderClose(rid)
+		}
+		rid = doReaderOpen()
+		if freeIter() == 0 {
+			doIterClose(1 + rng.Intn(maxI))
+		}
+		d := dels[rng.Intn(len(dels))]
+		lo := d[:rng.Intn(len(d)+1)]
+		var id int
+		if rng.Intn(2) == 0 {
+			id = doIterOpen(rid, "prefix", lo, none)
+		} else {
+			hi := none
+			if rng.Intn(2) == 0 {
+				hi = pickBound()
+				if len(hi) == 0 {
+					hi = []int{255}
+				}
+			}
+			id = doIterOpen(rid, "range", lo, hi)
+		}
+		for k := rng.Intn(3); k > 0; k-- {
+			doNext(id)
+		}
+		doSeek(id, d)
+		if rng.Intn(2) == 0 {
+			doNext(id)
+		}
+		doSeek(id, lo)
+		if rng.Intn(2) == 0 {
+			doSeek(id, []int{255, 255, 255})
+			doSeek(id, d)
+		}
+	}
+
+	for run.Calls < n {
 		x := rng.Intn(100)
 		switch {
-		case x < 28: // batch
-			nops := 1 + rng.Intn(6)
-			used := map[string]string{}
-			var ops []Op
-			var evOps []any
-			for len(ops) < nops {
-				k := pickKey()
-				ks := fmt.Sprint(k)
-				y := rng.Intn(100)
-				var o Op
-				switch {
-				case y < 40:
-					val := []int{rng.Intn(8)}
-					if rng.Intn(10) < 3 {
-						val = []int{}
-					}
-					o = Op{Op: "set", K: k, V: val}
-				case y < 72:
-					o = Op{Op: "del", K: k, V: none}
-				default:
-					d := []int{-3, -1, 1, 2}[rng.Intn(4)]
-					if d > 0 {
-						if positives >= 50 { // keeps every count a one-byte uvarint (< 128)
-							d = -1
-						} else {
-							positives++
-						}
-					}
-					o = Op{Op: "merge", K: k, V: none, D: d}
-				}
-				kind := "w"
-				if o.Op == "merge" {
-					kind = "m"
-				}
-				if prev, ok := used[ks]; ok && (prev != kind || kind == "w") {
-					// a key is merged or set/deleted in one batch, never both; set/delete at most once
-					nops--
-					continue
-				}
-				used[ks] = kind
-				ops = append(ops, o)
-				evOps = append(evOps, map[string]any{"op": o.Op, "k": nn(o.K), "v": nn(o.V), "d": o.D})
-			}
+		case x < 26: // batch
+			ops := randomBatch()
 			if len(ops) == 0 {
 				continue
 			}
-			if err := r.execBatch(ops); err != nil {
-				panic(genFail{"batch-error", err.Error()})
+			doBatch(ops)
+			if rng.Intn(2) == 0 {
+				probeDeleted(ops)
 			}
-			emit(map[string]any{"name": "ExecuteBatch", "ops": evOps})
-		case x < 38: // reader open
-			id := 0
-			for c := 1; c <= maxR; c++ {
-				if _, ok := r.readers[c]; !ok {
-					id = c
-					break
-				}
+		case x < 36:
+			doReaderOpen()
+		case x < 43:
+			if id := anyKey(rng, r.readers); id != 0 {
+				doReaderClose(id)
 			}
-			if id == 0 {
-				continue
-			}
-			rd, err := r.st.Reader()
-			if err != nil {
-				panic(genFail{"reader-error", err.Error()})
-			}
-			r.readers[id] = rd
-			emit(map[string]any{"name": "ReaderOpen", "r": id})
-		case x < 45: // reader close (its iterators first)
-			id := anyKey(rng, r.readers)
-			if id == 0 {
-				continue
-			}
-			for i := 1; i <= maxI; i++ {
-				if inf, ok := itOf[i]; ok && inf.rd == id {
-					_ = r.iters[i].Close()
-					delete(r.iters, i)
-					delete(itOf, i)
-					emit(map[string]any{"name": "IterClose", "i": i})
-				}
-			}
-			_ = r.readers[id].Close()
-			delete(r.readers, id)
-			emit(map[string]any{"name": "ReaderClose", "r": id})
-		case x < 55: // iterator open
+		case x < 53: // iterator open
 			rid := anyKey(rng, r.readers)
-			id := 0
-			for c := 1; c <= maxI; c++ {
-				if _, ok := r.iters[c]; !ok {
-					id = c
-					break
-				}
-			}
-			if rid == 0 || id == 0 {
+			if rid == 0 || freeIter() == 0 {
 				continue
 			}
-			var it store.KVIterator
-			ev := map[string]any{"name": "IterOpen", "i": id, "r": rid}
 			if rng.Intn(2) == 0 {
 				p := pickBound()
 				if len(p) == 3 && rng.Intn(2) == 0 {
 					p = p[:2]
 				}
-				it = r.readers[rid].PrefixIterator(emb.bound(p))
-				ev["kind"], ev["lo"], ev["hi"] = "prefix", nn(p), none
+				doIterOpen(rid, "prefix", p, none)
 			} else {
 				lo := pickBound()
 				hi := none
-				var end []byte
 				if rng.Intn(4) > 0 {
 					hi = pickBound()
 					if len(hi) == 0 {
 						hi = []int{255}
 					}
-					end = emb.key(hi)
 				}
-				it = r.readers[rid].RangeIterator(emb.bound(lo), end)
-				ev["kind"], ev["lo"], ev["hi"] = "range", nn(lo), hi
+				doIterOpen(rid, "range", lo, hi)
 			}
-			if it == nil {
-				panic(genFail{"iter-open-nil", ""})
-			}
-			r.iters[id] = it
-			itOf[id] = itInfo{rd: rid}
-			got, problem := r.current(it)
-			if problem != "" && got.K == nil {
-				panic(genFail{"iter-accessors-inconsistent", problem})
-			}
-			ev["ret"] = retJSON(got)
-			emit(ev)
 		case x < 72: // seek (forwards, backwards, before the first, after the last, on an exhausted iterator)
 			id := anyKey(rng, r.iters)
 			if id == 0 {
 				continue
 			}
 			k := pickBound()
-			switch rng.Intn(8) {
+			switch rng.Intn(10) {
 			case 0:
 				k = []int{}
 			case 1:
 				k = []int{255, 255, 255}
+			case 2, 3: // backwards: a proper prefix of the key the iterator last returned
+				if lp := lastPos[id]; len(lp) > 0 {
+					k = lp[:rng.Intn(len(lp))]
+				}
+			case 4:
+				if len(recentDel) > 0 {
+					k = recentDel[rng.Intn(len(recentDel))]
+				}
 			}
-			r.iters[id].Seek(emb.key(k))
-			got, problem := r.current(r.iters[id])
-			if problem != "" && got.K == nil {
-				panic(genFail{"iter-accessors-inconsistent", problem})
+			doSeek(id, k)
+		case x < 85:
+			if id := anyKey(rng, r.iters); id != 0 {
+				doNext(id)
 			}
-			emit(map[string]any{"name": "Seek", "i": id, "k": nn(k), "ret": retJSON(got)})
-		case x < 85: // next
-			id := anyKey(rng, r.iters)
-			if id == 0 || !r.iters[id].Valid() {
-				continue
+		case x < 88:
+			if id := anyKey(rng, r.iters); id != 0 {
+				doIterClose(id)
 			}
-			r.iters[id].Next()
-			got, problem := r.current(r.iters[id])
-			if problem != "" && got.K == nil {
-				panic(genFail{"iter-accessors-inconsistent", problem})
-			}
-			emit(map[string]any{"name": "Next", "i": id, "ret": retJSON(got)})
-		case x < 88: // iterator close
-			id := anyKey(rng, r.iters)
-			if id == 0 {
-				continue
-			}
-			_ = r.iters[id].Close()
-			delete(r.iters, id)
-			delete(itOf, id)
-			emit(map[string]any{"name": "IterClose", "i": id})
 		case x < 92: // get
 			rid := anyKey(rng, r.readers)
 			if rid == 0 {
@@ -361,7 +476,10 @@ func generateInto(run *runB, v variant, dir string, emb embedding, seed int64, n
 				return nil
 			}()
 			if m != nil {
-				run.Extra = append(run.Extra, m)
+				if len(run.Extra) == 0 {
+					run.Extra = append(run.Extra, m)
+				}
+				run.Calls++
 				continue
 			}
 			var evKs []any
